@@ -15,7 +15,7 @@ os.makedirs(os.path.join(S, "results"), exist_ok=True)
 confirmed = {}
 for f in sorted(glob.glob(os.path.join(V, "out", "confirm_batch*.log"))):
     for l in open(f):
-        m = re.match(r"(CONFIRMED|NOT-CONFIRMED) (C\d+)/([A-D]) (.*)", l.strip())
+        m = re.match(r"(CONFIRMED|NOT-CONFIRMED) (C\d+)/([A-F]) (.*)", l.strip())
         if m:
             confirmed["%s-%s" % (m.group(2), m.group(3))] = (m.group(1) == "CONFIRMED", m.group(4))
 
@@ -23,8 +23,10 @@ rows = []
 for mid, (ok, info) in sorted(confirmed.items()):
     pid, v = mid.split("-")
     src = "/tmp/mut/m_%s/out/%s" % (pid, v)
-    if not os.path.exists(src):
+    if not os.path.exists(src) and v in "CD":
         src = "/tmp/mut/r2_%s/out/%s" % (pid, v)      # second round: variants C / D
+    if not os.path.exists(src) and v in "EF":
+        src = "/tmp/mut/r3_%s/out/%s" % (pid, v)      # third round: variants E / F
     dst = os.path.join(S, mid)
     if ok and os.path.exists(src):
         os.makedirs(dst, exist_ok=True)
